@@ -56,6 +56,8 @@ class Ctx(object):
             st['relocated_functions'] = dict(self.prog.relocated)
         if self.prog.inlined:
             st['inlined_new_helpers'] = dict(self.prog.inlined)
+        if self.prog.new_constants:
+            st['folded_new_constants'] = dict(self.prog.new_constants)
         return st
 
 
@@ -212,6 +214,9 @@ def main(argv):
         for mn, k in sorted(ctx.prog.inlined.items()):
             print('  NOTE %d call(s) of functions new to %s were expanded '
                   'in place' % (k, mn))
+        for mn, k in sorted(ctx.prog.new_constants.items()):
+            print('  NOTE %d read(s) of module-level literals new to %s were '
+                  'replaced by the literal' % (k, mn))
         for r, fl in sorted(rec.floors.items()):
             print('  %-8s instances %d (floor %d)' % (
                 r, rec.instances.get(r, 0), fl))
